@@ -44,7 +44,7 @@ def run_threaded(sc):
 
     for p in params:
         p['wait_func'] = wait_func if lat else time.sleep
-        p['rx_flowcontrol_timeout'] = BIG_TIMEOUT_MS
+        p['rx_flowcontrol_timeout'] = sc.get('fc_timeout_ms', BIG_TIMEOUT_MS)
         p['rx_consecutive_frame_timeout'] = BIG_TIMEOUT_MS
 
     # schedule perturbation at the synchronisation points of the threaded layer: the `threading.Event` and `queue.Queue`
@@ -173,6 +173,7 @@ def run_threaded(sc):
         L.start()
     received = {0: [], 1: []}
     send_exc = []
+    send_exc_by_id = {}
     stop_flag = threading.Event()
 
     def sender(i, items):
@@ -185,6 +186,7 @@ def run_threaded(sc):
                     layers[i].send(bytearray(payload))
             except Exception as e:
                 send_exc.append('%s' % type(e).__name__)
+                send_exc_by_id[rid] = type(e).__name__
             if lat:
                 time.sleep(rng.random() * lat)
 
@@ -221,6 +223,8 @@ def run_threaded(sc):
                 received[i].append(bytes(r))
         if all(len(received[i]) >= expected[i] for i in (0, 1)) and not any(t.is_alive() for t in threads):
             break
+        if sc.get('abort_variant') and not any(t.is_alive() for t in threads):
+            break
         time.sleep(0.002)
     time.sleep(0.02)
     for i in (0, 1):
@@ -255,7 +259,7 @@ def run_threaded(sc):
         for name, val in restore:
             setattr(proto, name, val)
     li, lo = threadrun.build_lines(rec, layer_lines)
-    sc['_result'] = {'received': received, 'errors': errors, 'send_exc': send_exc, 'stuck_senders': alive, 'stop_s': stop_s,
+    sc['_result'] = {'received': received, 'errors': errors, 'send_exc': send_exc, 'send_exc_by_id': send_exc_by_id, 'stuck_senders': alive, 'stop_s': stop_s,
                      'steps': len(rec.log)}
     return li, lo
 
